@@ -87,16 +87,39 @@ structure Seen where
   tlr : List Nat      -- what the grpc.Trailer target holds afterwards
 deriving DecidableEq, Repr
 
+/-- the code `statFromResponse` reads off a reply: the X-GRPC-Status header if present, else the HTTP status -/
+def replyCode (r : Reply) : Nat :=
+  match r.grpcCode with
+  | some c => c
+  | none => Codes.codeFromHttpStatus r.httpStatus
+
 /-- `Invoke` from the reply on (with grpc.Header / grpc.Trailer options present): metadata first,
     then the status, then the body -/
 def client (r : Reply) : Seen :=
-  let code := match r.grpcCode with
-    | some c => c
-    | none => Codes.codeFromHttpStatus r.httpStatus
+  let code := replyCode r
   -- (the order "metadata before status" is regenerated from Channel.Invoke)
   let early := code != 0 && !Gen.unaryClientMetadataBeforeStatus
   { result := if code != 0 then .status code else (match r.body with | some m => .msg m | none => .plainErr)   -- (no message in the body: the codec fails on the error page),
     hdr := if early then [] else r.hdr, tlr := if early then [] else r.tlr }
+
+/-! ### the caller's context ends during the call -/
+
+/-- where the end of the context falls relative to `Invoke`'s steps -/
+inductive CancelAt where
+  | beforeReply                    -- RoundTrip itself fails with the context's error
+  | afterHeaders (tookBody : Bool) -- the reply headers are in; `tookBody`: the final select took the body-reader's
+                                   -- completion (whose read failed because of the cancellation) rather than ctx.Done
+deriving DecidableEq, Repr
+
+/-- what `Invoke` returns when the context ends at that point -/
+def clientCancelled (r : Reply) (at_ : CancelAt) (reason : Reason) : Res :=
+  let code := replyCode r
+  match at_ with
+  | .beforeReply => .status (codeOf reason)
+  | .afterHeaders tookBody =>
+    if code != 0 then .status code           -- an error reply is complete with its headers: the real result
+    else if tookBody then (if Gen.unaryBodyErrTranslated then .status (codeOf reason) else .ctxErr reason)
+    else .status (codeOf reason)
 
 /-- the handler never sets header metadata under the protocol's status header name -/
 def noStatusHeader : List HOp → Bool
